@@ -5,9 +5,10 @@
    Tier 3 holds for every value within the limits the decoder enforces (nesting depth, digits of an
    integer), whose strings do not contain a high surrogate immediately followed by a low one (such a
    pair of escapes is read back as ONE astral character - Python's json does the same), whose object
-   keys are distinct, and whose float tokens satisfy the float oracle [FloatOk] (the text repr(x) is
-   read back as itself - proved for the shapes float.__repr__ produces in the examples, assumed in
-   general: it is float(repr x) = x).  That json.dumps / json.loads ARE lib/Json.v's print / loads is
+   keys are distinct, and whose float tokens satisfy [FloatOk] (the token is read back as itself) -
+   which is a THEOREM for every token of the shape float.__repr__ produces ([FloatShape]: optional
+   minus, an integer part without leading zero, a fraction and/or an exponent with explicit sign) and
+   for nan / inf / -inf; what remains assumed is that repr(x) has that shape and float(repr x) = x.  That json.dumps / json.loads ARE lib/Json.v's print / loads is
    tied by the byte-exact correspondence in both directions. *)
 From AV Require Import Base Utf8 Json Gen_jsonrpc Codec CodecProofs JsonRoundTrip CodecText.
 
@@ -115,7 +116,11 @@ Proof.
   intros e d v rid H1 H2 H3 H4 H5. rewrite (item_text_roundtrip d _ H3 H4 H5). f_equal. exact (roundtrip_result e d v rid H1 H2).
 Qed.
 
-(* the float oracle holds for what float.__repr__ produces (instances) *)
+(* the float oracle is a theorem for every token of the shape float.__repr__ produces *)
+Theorem C04_float_shape : forall md t, FloatShape t -> FloatOk md t.
+Proof. exact float_shape_ok. Qed.
+
+(* ... and for the special values (instances) *)
 Example C04_float_oracle_instances : forall md,
   FloatOk md [49; 46; 53]%N /\ FloatOk md [45; 50; 46; 53; 101; 45; 48; 55]%N /\ FloatOk md [49; 101; 43; 50; 50]%N /\
   FloatOk md [110; 97; 110]%N /\ FloatOk md [105; 110; 102]%N /\ FloatOk md [45; 105; 110; 102]%N.
@@ -156,3 +161,4 @@ Print Assumptions C04_string_roundtrip.
 Print Assumptions C04_wire_roundtrip.
 Print Assumptions C04_wire_roundtrip_request.
 Print Assumptions C04_wire_roundtrip_result.
+Print Assumptions C04_float_shape.
